@@ -67,6 +67,7 @@ type layoutRun struct {
 	w    *cq.Writer
 	root string
 	nDir int
+	mergeMax int
 }
 
 func runLayout(o Opts) error {
@@ -84,9 +85,37 @@ func runLayout(o Opts) error {
 	if err := r.emptyProbes(); err != nil {
 		return err
 	}
+	// the offline writer merges runs of mergeMax segments: corpora sized around that fan-in (one
+	// document per batch gives as many batches as documents)
+	mergeMax := 10
+	{
+		dir := r.dir()
+		if ow, err := bluge.OpenOfflineWriter(bluge.DefaultConfig(dir), 1, 2); err == nil {
+			mergeMax = ow.VerifMergeMax()
+			_ = ow.Insert(bluge.NewDocument("x")) // an offline writer without documents cannot be closed (known finding)
+			_ = ow.Close()
+		}
+		_ = os.RemoveAll(dir)
+	}
+	r.mergeMax = mergeMax
 	for ci := 0; ci < nCorpora; ci++ {
 		nDocs := 3 + r.rng.Intn(9)
-		c := sxGenCorpus(r.rng, nDocs, 1+r.rng.Intn(3), true)
+		switch {
+		case ci == 1:
+			nDocs = mergeMax + 1 + r.rng.Intn(2) // fan-in + 1, + 2 live documents or a few less after deletions
+		case ci == 2:
+			nDocs = 2*mergeMax + 1 + r.rng.Intn(2)
+		case ci == 3:
+			nDocs = mergeMax - 1 + r.rng.Intn(4)
+		case o.Thorough() && ci == 4:
+			nDocs = mergeMax*mergeMax + 1 + r.rng.Intn(mergeMax)
+		}
+		withDeletes := !(ci >= 1 && ci <= 4) || r.rng.Intn(2) == 0
+		nSeg := 1 + r.rng.Intn(3)
+		if !withDeletes {
+			nSeg = 1 + r.rng.Intn(2)
+		}
+		c := sxGenCorpus(r.rng, nDocs, nSeg, withDeletes)
 		if ci == 0 {
 			// the logically empty index: two documents inserted, then both deleted
 			c = sxGenCorpus(r.rng, 2, 1, false)
@@ -436,6 +465,49 @@ func (r *layoutRun) builds(c *sCorpus) ([]*lxBuild, error) {
 		}
 		b.readers = append(b.readers, rd)
 		out = append(out, b)
+	}
+	// 9b. offline writer with one document per batch, and with batch sizes that give batch counts
+	// around the merge fan-in (mergeMax - 1 .. mergeMax + 2, 2 * mergeMax + 1)
+	if n > 0 {
+		sizes := []int{0}
+		for _, want := range []int{r.mergeMax - 1, r.mergeMax, r.mergeMax + 1, r.mergeMax + 2, 2*r.mergeMax + 1} {
+			if want >= 1 && want <= n {
+				bs := n/want - 1 // Insert flushes after bs+1 documents
+				if bs > 0 && (n+bs)/(bs+1) == want {
+					sizes = append(sizes, bs)
+				}
+			}
+		}
+		seen := map[int]bool{}
+		for _, bs := range sizes {
+			if seen[bs] {
+				continue
+			}
+			seen[bs] = true
+			dir := r.dir()
+			cfg := bluge.DefaultConfig(dir)
+			ow, err := bluge.OpenOfflineWriter(cfg, bs, 2)
+			if err != nil {
+				return fail(err)
+			}
+			for _, id := range c.liveIDs() {
+				if err := ow.Insert(c.Live[id].blugeDoc()); err != nil {
+					return fail(err)
+				}
+			}
+			if err := ow.Close(); err != nil {
+				return fail(fmt.Errorf("offline close: %w", err))
+			}
+			nb := (n + bs) / (bs + 1)
+			b = &lxBuild{name: fmt.Sprintf("offline-%d-batches", nb), offline: nb}
+			rd, err := bluge.OpenReader(cfg)
+			if err != nil {
+				return fail(fmt.Errorf("offline open: %w", err))
+			}
+			b.readers = append(b.readers, rd)
+			out = append(out, b)
+			r.w.Count(fmt.Sprintf("offline_batches_%d", nb), 1)
+		}
 	}
 	// 10. segment version 2
 	b = &lxBuild{name: "mem-live-segment-v2"}
